@@ -138,7 +138,8 @@ def degenerate_stream(res, rng):
                                'correspondence': 'PMC.CTLS.modelcheck (PMC/Model/CTLS.lean) vs CTLS.modelcheck'}, no_input=True)
     if known_live:
         for k in known_findings('C03'):
-            res.known.append('%s: %s' % (k['id'], k['what']))
+            if k['id'] == 'KF-C03-a':
+                res.known.append('%s: %s' % (k['id'], k['what']))
     return {'degenerate_arity_cases': len(cases), 'degenerate_known_finding_instances': known_hits,
             'degenerate_wrong_answers_not_listed': wrong, 'degenerate_model_deviations': infidel}
 
@@ -147,6 +148,8 @@ def run(res):
     rng = rng_for('C03')
     cases, n_exh = cases_for(res, rng)
     st = mc_common.run_cases(res, 'CTLS', cases, 'C03')
+    arng = rng_for('C03/names')
+    st.update(mc_common.adversarial_names_stream(res, 'CTLS', lambda: F.rand_ctls_state(arng, 4, max_temporal=3), arng, res.tier == 'quick', 'C03'))
     st.update(degenerate_stream(res, rng_for('C03/degenerate')))
     # static hypotheses of ctls_exact (identifier-style atoms and labels, arity >= 2): decided here per case
     import re
